@@ -1,0 +1,17 @@
+// Copyright 2025 The JSON Schema Go Project Authors. All rights reserved.
+// Use of this source code is governed by an MIT-style
+// license that can be found in the LICENSE file.
+
+//go:build !verif
+
+package jsonschema
+
+import "reflect"
+
+// verifOn reports whether the verification hooks (build tag "verif") are
+// compiled in. It is a constant so that hook call sites compile away.
+const verifOn = false
+
+func verifFrame(*state, *Schema, reflect.Value, *annotations, *annotations, *error) func() {
+	return nil
+}
